@@ -1,6 +1,6 @@
 (* C07: the hypotheses are satisfiable with non-trivial operands and valuations, and the equations are not
    trivially 0 = 0:  (3/2*x^2*y^-1) * (I*x^-3*y)  at x = 2/3, y = 1/2 - I. *)
-From SE Require Import Expr.DenoteMul Num.NumSpec.
+From SE Require Import Expr.DenotePow Num.NumSpec.
 From Coq Require Import QArith.
 Local Open Scope Z_scope.
 Definition vx := ESym [120%N]. Definition vy := ESym [121%N].
@@ -19,6 +19,20 @@ Example C07_values_nontrivial :
       qi_eqb (denote rho rhoc m) (qi_mul (denote rho rhoc p1) (denote rho rhoc p2))
       && qi_eqb (denote rho rhoc s) (qi_add (denote rho rhoc p1) (denote rho rhoc p2))
       && negb (qi_eqb (denote rho rhoc m) qi_zero) && negb (qi_eqb (denote rho rhoc s) qi_zero)
+  | _, _ => false
+  end = true.
+Proof. vm_compute. reflexivity. Qed.
+(* pow and div: ((3/2)*x^2*y^-1)^-3 and p1 / p2 at the same point *)
+Example C07_pow_div_hypotheses_hold :
+  pow_operand_ok p1 (-3) = true /\ pow_dfn_ok rho rhoc p1 (-3) = true /\
+  pow_operand_ok p2 (-1) = true /\ pow_dfn_ok rho rhoc p2 (-1) = true.
+Proof. vm_compute. repeat split; reflexivity. Qed.
+Example C07_pow_div_values_nontrivial :
+  match e_pow 6 p1 (ENum (NInt (-3))), e_div 6 p1 p2 with
+  | Ok pw, Ok dv =>
+      qi_eqb (denote rho rhoc pw) (qi_powz (denote rho rhoc p1) (-3))
+      && qi_eqb (denote rho rhoc dv) (qi_mul (denote rho rhoc p1) (qi_inv (denote rho rhoc p2)))
+      && negb (qi_eqb (denote rho rhoc pw) qi_zero) && negb (qi_eqb (denote rho rhoc dv) qi_zero)
   | _, _ => false
   end = true.
 Proof. vm_compute. reflexivity. Qed.
